@@ -18,6 +18,7 @@ func init() {
 		Overrides: map[string]string{
 			"(" + goosePkg + ".TranslationConfig).TranslatePackages": cmdGoosePkg + ".verifStubTranslatePackages",
 		},
+		Custom:  commandEndToEnd,
 		Entries: []Entry{
 			{PkgPath: cmdGoosePkg, Func: "verifC17Translate", Opt: big, Replay: "model"},
 			{PkgPath: cmdGoosePkg, Func: "verifC17PatternError", Opt: big, Replay: "model"},
@@ -25,7 +26,7 @@ func init() {
 			{PkgPath: goosePkg, Func: "verifC17PackageConfig", Opt: big},
 		},
 		Covers: []string{"c17/translate", "c17/partial-output", "c17/pattern-error", "c17/flags", "c17/config"},
-		Bounds: "n ≤ 2 (quick) / 3 (thorough) packages with distinct paths from a pool of 3 (incl. '-' and '.' and a single-segment path), each succeeding or failing, with 0–2 declarations, -ignore-errors on/off, prior state of each target ∈ {absent, identical bytes, different (symbolic) bytes}; pattern error; all 16 combinations of the boolean flags (symbolic)",
+		Bounds: "end to end: the real binary on a five-package module (two good packages, a nested one, one with an unsupported statement between two good declarations, one with goose/!goose build-tagged files) under eight invocations (single package; good·bad·good; -ignore-errors; -dir from another directory with a recursive pattern and an -out containing '..'; up-to-date read-only, stale and fresh targets with their modification times; the goose build tag; a missing package; three flags over ./...); symbolic: n ≤ 2 (quick) / 3 (thorough) packages with distinct paths from a pool of 3 (incl. '-' and '.' and a single-segment path), each succeeding or failing, with 0–2 declarations, -ignore-errors on/off, prior state of each target ∈ {absent, identical bytes, different (symbolic) bytes}; pattern error; all 16 combinations of the boolean flags (symbolic)",
 		Assumptions: []string{
 			"TranslatePackages (go/packages loading + translation) is replaced by a stub returning the symbolic results; what go list makes of patterns, -dir and build tags is outside the claim",
 			"os.ReadFile/WriteFile/MkdirAll/Exit and flag are intrinsics over the kernel model; fatih/color is the identity on text",
